@@ -542,7 +542,22 @@ func ParseTupleAndKeywords(args Tuple, kwargs StringDict, format string, kwlist 
 			}
 			*result = arg
 		case 'i', 'n':
-			if _, ok := arg.(Int); !ok {
+			switch x := arg.(type) {
+			case Int:
+			case Bool:
+				// a bool is an int
+				arg = Int(0)
+				if x {
+					arg = Int(1)
+				}
+			case *BigInt:
+				// an int, but not one which fits
+				n, err := x.Int()
+				if err != nil {
+					return err
+				}
+				arg = n
+			default:
 				return ExceptionNewf(TypeError, "%s() argument %d must be int, not %s", name, i+1, arg.Type().Name)
 			}
 			*result = arg
